@@ -65,7 +65,7 @@ def run(rep, tier, seed, proof_ok):
                 "operation sequences (keep of str / bytes / None / object results at paths with 1..3 segments, re-keep with changed "
                 "code, re-keep with the code reverted, load) - checks: keep returns the plain value; 'full' leaves a byte-identical copy of each result plus a redirect "
                 "record, 'links only' only the record, 'none' nothing; load works iff the record exists; and blobs whose metadata names "
-                "a legacy or current codec reference decode with the codec of that kind; distinct = distinct case")
+                "a legacy or current codec reference decode with the codec of that kind, also when a path is committed to them under each commit type; distinct = distinct case")
     cases = []
     kinds = ["str", "bytes", "none", "obj"]
     for ct in DOCUMENTED + ENUM_NAMES:
@@ -92,6 +92,10 @@ def run(rep, tier, seed, proof_ok):
             steps.append({"listing": True})
             cases.append({"commit_type": ct, "steps": steps, "plan": plan})
     cases.append({"commit_type": "full", "steps": [{"legacy": [f"abc{i}", ref, kind]} for i, (ref, kind) in enumerate(LEGACY)], "plan": [], "legacy": True})
+    # paths committed to legacy blobs under every commit type
+    for ct in ("full", "links_only", "none"):
+        cases.append({"commit_type": ct, "plan": [], "legacy_sync": True,
+                      "steps": [{"legacy_sync": [f"def{i}", ref, kind, f"/leg/p{i}"]} for i, (ref, kind) in enumerate(LEGACY)] + [{"listing": True}]})
     with cf.ThreadPoolExecutor(max_workers=C.NPROC) as ex:
         res = list(ex.map(run_case, cases))
     for r in res:
@@ -102,6 +106,25 @@ def run(rep, tier, seed, proof_ok):
             continue
         out = r["out"]
         replay = {"case": c, "out": out}
+        if c.get("legacy_sync"):
+            listing = out[-1]["data_files"] if isinstance(out[-1], dict) else {}
+            mode = expected_mode(c["commit_type"])
+            raw = {"string": "legacy-text".encode("utf-8").hex(), "bytes": b"\x00legacy\xff".hex()}
+            for i, ((ref, kind), o) in enumerate(zip(LEGACY, out[1:-1])):
+                obj, rec = f"dbfs:/s/data/leg/p{i}", f"dbfs:/s/data/_dds_meta/leg/p{i}"
+                if mode == "NO_COMMIT":
+                    if str(o).startswith("S:equal") or str(o).startswith("S:DIFFERENT") or obj in listing or rec in listing:
+                        rep.violation("legacy-commit:none", f"commit type none with a legacy blob ({ref}): {str(o)[:60]}, files written: {obj in listing or rec in listing}", dict(replay, ref=ref))
+                    continue
+                if o != "S:equal":
+                    rep.violation(f"legacy-commit:{mode}:{ref}", f"a path committed to a blob whose metadata names {ref} under {mode}: {str(o)[:80]}", dict(replay, ref=ref))
+                if rec not in listing:
+                    rep.violation("record-missing:" + mode, f"no redirect record for a path committed to a legacy blob ({ref})", dict(replay, ref=ref))
+                if mode == "FULL" and kind in raw and listing.get(obj) != raw[kind]:
+                    rep.violation("full-copy-not-identical", f"the copy of a legacy {kind} blob ({ref}) at {obj} is missing or not byte-identical", dict(replay, ref=ref))
+                if mode == "LINK_ONLY" and obj in listing:
+                    rep.violation("links-only-copies-data", f"links-only commit wrote the data file {obj}", dict(replay, ref=ref))
+            continue
         if c.get("legacy"):
             for (ref, kind), o in zip(LEGACY, out[1:]):
                 if o != "G:equal":
